@@ -2,6 +2,7 @@
 from __future__ import annotations
 
 import os
+import sys
 import threading
 from typing import Any, Dict, List, Optional
 
@@ -31,7 +32,10 @@ SHAPES = ["list", "tuple", "generator", "lazy_iter", "iter_close", "empty_chunks
           "raise_before_start", "raise_after_start", "raise_mid_iter", "no_start_response",
           # a response object (Django / werkzeug style): an iterable with close() whose
           # __iter__ returns a different object - close() belongs to the iterable (PEP 3333)
-          "iterable_close", "iterable_close_gen", "iterable_close_raise"]
+          "iterable_close", "iterable_close_gen", "iterable_close_raise",
+          # start_response called again with exc_info before any output: PEP 3333 has the
+          # stored status and headers replaced by the new ones
+          "replace_before_output"]
 
 
 @st.composite
@@ -169,6 +173,15 @@ def build_app(case: Dict[str, Any], probe: Probe) -> Any:
             return Iter(False, None, None)
         if shape == "lazy_iter":
             return Iter(True, start_response, None)
+        if shape == "replace_before_output":
+            start_response("202 Accepted", [("X-First-Thought", "1")])
+
+            def replace(s: str, h: list) -> None:
+                try:
+                    raise KeyError("found out late, before anything was output")
+                except KeyError:
+                    start_response(s, h, sys.exc_info())
+            return Iter(True, replace, None)
         if shape == "raise_mid_iter":
             return Iter(False, None, case["raise_at"])
         if shape == "no_start_response":
@@ -440,6 +453,7 @@ def run_case(case: Dict[str, Any]) -> CaseInfo:
 
     # ---- response / close / errors
     has_close = shape in ("iter_close", "lazy_iter", "raise_mid_iter", "no_start_response",
+                          "replace_before_output",
                           "generator", "iterable_close", "iterable_close_gen",
                           "iterable_close_raise")
     want_close = 1 if has_close else 0
@@ -448,7 +462,7 @@ def run_case(case: Dict[str, Any]) -> CaseInfo:
                     for n, v in case["resp_headers"]]
     got_body = b"".join(m.get("body", b"") for m in bodies)
     if shape in ("list", "tuple", "generator", "lazy_iter", "iter_close", "empty_chunks",
-                 "iterable_close", "iterable_close_gen"):
+                 "iterable_close", "iterable_close_gen", "replace_before_output"):
         if exc is not None:
             raise Violation("wsgi_valid_app_failed", f"shape={shape}: {exc!r}", shape=shape)
         if len(starts) != 1 or starts[0]["status"] != status:
